@@ -29,6 +29,15 @@ def targets(ctx):
     out = []
     for (w, c), f in zip(specs, files):
         out.append(("lib:%s:%s" % (w, c.name()), f, False))
+    # an index entry without stored bytes that is not the dictionary and whose checksum is not the all-zero convention of
+    # an absent dictionary: nothing hashes to it, so it is failed whatever the file holds (re-sealed, body unchanged)
+    for (w, c), f in list(zip(specs, files))[:2] + list(zip(specs, files))[4:5]:
+        p = zckref.parse(f)
+        for at in (2, len(p.chunks)):
+            chunks = [zckref.Chunk(x.digest, x.clen, x.ulen, x.udigest) for x in p.chunks]
+            chunks.insert(at, zckref.Chunk(b"\xaa" * len(p.chunks[0].digest), 0, 0, b"\xaa" * len(p.chunks[0].digest) if p.flags & 4 else None))
+            h = zckref.Header(p.htype, p.ctype, p.flags, p.comp, chunks, p.data_digest)
+            out.append(("ref:%s:%s:empty-entry@%d" % (w, c.name(), at), h.build() + f[p.header_len:], False))
     # detached twins of two of them (only the dictionary is scanned)
     for (w, c), f in list(zip(specs, files))[2:4]:
         out.append(("lib:%s:%s:detached" % (w, c.name()), universe.detach(f), True))
